@@ -5,11 +5,13 @@ import (
 	"fmt"
 	"io"
 	"os"
+	"runtime"
 	"sort"
 	"strings"
 	"sync"
 	"sync/atomic"
 	"time"
+	"unsafe"
 
 	"github.com/quay/claircore"
 	"github.com/quay/claircore/internal/verifhook"
@@ -22,10 +24,13 @@ type park struct {
 	site string
 	key  int
 	gid  int64
+	ptr  *byte // data pointer of the key string: identifies the LayerDescription the closure was made for
 	rel  chan struct{}
 }
 
-// task is one fetchInto closure: one user asking for one layer.
+// task is one fetchInto closure: one user asking for one layer. A bare task is run by the
+// harness through FetchIntoForVerif; a proxy task is run by the errgroup of a
+// RealizeDescriptions call.
 type task struct {
 	id       int
 	key      int
@@ -37,10 +42,57 @@ type task struct {
 	desc     claircore.LayerDescription
 	gid      int64
 	at       *park
-	st       string // enter waiting got reffed valok stale holding failed closed
+	st       string // unborn enter waiting got reffed valok stale holding failed closed
 	finished bool
 	err      error
-	gen      int // which rc of its key the flight handed to the task (-1: none)
+	gen      int    // which rc of its key the flight handed to the task (-1: none)
+	call     *pcall // the RealizeDescriptions call this closure belongs to (nil: bare)
+	idx      int
+}
+
+// pcall is one RealizeDescriptions call in progress (the mirror of the model's Call).
+type pcall struct {
+	px     *proxy
+	keys   []int
+	bad    []bool
+	descs  []claircore.LayerDescription
+	limit  int
+	tasks  []*task
+	dead   bool
+	cancel context.CancelFunc
+	early  map[int]*park // closures that reached DoChan before the mirror expected them
+	result *realizeRes
+}
+
+type realizeRes struct {
+	call *pcall
+	ls   []claircore.Layer
+	err  error
+	out  string
+}
+
+// proxy is one FetchProxy.
+type proxy struct {
+	id         int
+	fp         *libindex.FetchProxy
+	cleanup    []*task
+	call       *pcall
+	used       bool
+	closedIdle bool // a Close with nothing to close has been tried since the last call
+}
+
+// keptLayers keeps every Layer a RealizeDescriptions call returned reachable: a Layer that
+// is collected without Close panics in its finalizer (by design), which would take the
+// harness down with it when a scenario is abandoned half-way.
+var (
+	keptMu     sync.Mutex
+	keptLayers [][]claircore.Layer
+)
+
+type descRef struct {
+	t    *task
+	call *pcall
+	idx  int
 }
 
 type flightSt struct {
@@ -66,13 +118,17 @@ type sched struct {
 	srv      *server
 	keyIdx   map[string]int
 	tasks    []*task
+	proxies  []*proxy
 	flights  map[int]*flightSt
 	arrive   chan *park
 	doneCh   chan taskDone
+	realized chan *realizeRes
 	abandon  atomic.Bool
-	mu       sync.Mutex // byGid, gens: touched by hooks on other goroutines
-	byGid    map[int64]*task
+	mu       sync.Mutex // gens, ginos: touched by hooks on other goroutines
+	byPtr    map[*byte]*descRef
 	gens     map[int][]any
+	ginos    map[int][]uint64
+	detached map[any]bool // rcs whose file was open when the arena was Closed
 	ops      []string
 	orphaned map[int]bool // keys whose flight delivered an rc to nobody
 	atServer map[int]bool // a stalled request for the key is waiting at the server
@@ -81,6 +137,7 @@ type sched struct {
 	cur      string
 	raceGid  atomic.Int64 // goroutine whose Close is to be stopped at c10.done
 	raceCh   chan *park
+	aclosed  bool
 }
 
 func newSched(r *hx.Run, layers []*layer) (*sched, error) {
@@ -89,7 +146,8 @@ func newSched(r *hx.Run, layers []*layer) (*sched, error) {
 		return nil, err
 	}
 	s := &sched{r: r, root: root, keyIdx: map[string]int{}, flights: map[int]*flightSt{}, arrive: make(chan *park, 1024),
-		doneCh: make(chan taskDone, 1024), raceCh: make(chan *park, 4), byGid: map[int64]*task{}, gens: map[int][]any{}, orphaned: map[int]bool{}, atServer: map[int]bool{}}
+		doneCh: make(chan taskDone, 1024), realized: make(chan *realizeRes, 64), raceCh: make(chan *park, 4), byPtr: map[*byte]*descRef{},
+		gens: map[int][]any{}, ginos: map[int][]uint64{}, detached: map[any]bool{}, orphaned: map[int]bool{}, atServer: map[int]bool{}}
 	s.srv = newServer(layers)
 	for _, l := range layers {
 		s.keyIdx[l.digest] = l.idx
@@ -108,8 +166,11 @@ func (s *sched) hook(site, key string) {
 		return
 	}
 	if site == "c10.flight.stored" {
+		e := s.arena.ArenaEntryForVerif(key)
+		_, ino := libindex.RcInodeForVerif(e)
 		s.mu.Lock()
-		s.gens[k] = append(s.gens[k], s.arena.ArenaEntryForVerif(key))
+		s.gens[k] = append(s.gens[k], e)
+		s.ginos[k] = append(s.ginos[k], ino)
 		s.mu.Unlock()
 		return
 	}
@@ -128,7 +189,7 @@ func (s *sched) hook(site, key string) {
 		<-p.rel
 		return
 	}
-	p := &park{site: site, key: k, gid: hx.GoID(), rel: make(chan struct{})}
+	p := &park{site: site, key: k, gid: hx.GoID(), ptr: unsafe.StringData(key), rel: make(chan struct{})}
 	s.arrive <- p
 	<-p.rel
 }
@@ -160,15 +221,40 @@ func (s *sched) place(p *park) {
 		f.at = p
 		return
 	}
-	s.mu.Lock()
-	t := s.byGid[p.gid]
-	s.mu.Unlock()
-	if t == nil {
-		s.fail("", "hook-from-unknown-goroutine site="+p.site)
+	ref := s.byPtr[p.ptr]
+	if ref == nil {
+		s.fail("", "hook-from-unknown-closure site="+p.site)
 		close(p.rel)
 		return
 	}
+	t := ref.t
+	if t == nil {
+		if ref.idx < len(ref.call.tasks) {
+			t = ref.call.tasks[ref.idx]
+		} else {
+			// g.Go started this description before the mirror got to it
+			ref.call.early[ref.idx] = p
+			return
+		}
+	}
 	t.at = p
+	t.gid = p.gid
+}
+
+// fin reports whether the closure of t has returned. A bare task says so itself; a closure
+// run by an errgroup has returned (and the group has seen its error and released its slot)
+// when its goroutine is gone.
+func (s *sched) fin(t *task) bool {
+	if t.finished {
+		return true
+	}
+	if t.call == nil || t.at != nil || t.gid == 0 {
+		return false
+	}
+	if goState(t.gid) == "" {
+		t.finished = true
+	}
+	return t.finished
 }
 
 // pump processes arrivals until cond holds.
@@ -176,7 +262,7 @@ func (s *sched) pump(what string, cond func() bool) bool {
 	if s.broken {
 		return false
 	}
-	timeout := time.After(30 * time.Second)
+	deadline := time.Now().Add(30 * time.Second)
 	for !cond() {
 		select {
 		case p := <-s.arrive:
@@ -185,10 +271,14 @@ func (s *sched) pump(what string, cond func() bool) bool {
 			d.t.finished, d.t.err = true, d.err
 		case k := <-s.srv.arrived:
 			s.atServer[k] = true
-		case <-timeout:
-			s.fail("", "no-progress waiting-for="+what)
-			s.broken = true
-			return false
+		case res := <-s.realized:
+			res.call.result = res
+		case <-time.After(50 * time.Microsecond):
+			if time.Now().After(deadline) {
+				s.fail("", "no-progress waiting-for="+what)
+				s.broken = true
+				return false
+			}
 		}
 	}
 	return true
@@ -206,32 +296,102 @@ func (s *sched) releaseFlight(f *flightSt) {
 	close(p.rel)
 }
 
-// keyState renders what can be observed of one key; the Lean driver prints
-// the same from the model state.
-func (s *sched) keyState(k int) string {
-	s.mu.Lock()
-	gens := append([]any(nil), s.gens[k]...)
-	s.mu.Unlock()
-	var cells []string
-	for i, x := range gens {
-		c, open := libindex.RcStateForVerif(x)
-		o := "x"
-		if open {
-			o = "o"
-		}
-		cells = append(cells, fmt.Sprintf("g%d:c%d:%s", i, c, o))
-	}
-	a := "-"
-	if e := s.arena.ArenaEntryForVerif(s.srv.layers[k].digest); e != nil {
-		a = "?"
+// fdEnt is one descriptor of this process that points into the arena directory.
+type fdEnt struct {
+	ino   uint64
+	write bool
+}
+
+// world renders everything that can be observed of the arena: per key the rcs that are
+// alive, the arena entry and the server's request count; the descriptors into the arena
+// directory by kind; the proxies. The Lean driver prints the same from the model state.
+// It also returns the descriptor counts (temp files of rcs, temp files not stored yet,
+// private read-only descriptors).
+func (s *sched) world() (string, [3]int) {
+	fds := scanFDs(s.root)
+	var parts []string
+	openInos := map[uint64]bool{}
+	for k := range s.srv.layers {
+		s.mu.Lock()
+		gens := append([]any(nil), s.gens[k]...)
+		inos := append([]uint64(nil), s.ginos[k]...)
+		s.mu.Unlock()
+		cells := []string{fmt.Sprintf("k%d n%d", k, len(gens))}
 		for i, x := range gens {
-			if x == e {
-				a = fmt.Sprint(i)
+			c, open := libindex.RcStateForVerif(x)
+			if c == 0 && !open {
+				continue
+			}
+			o, rd := "x", 0
+			if open {
+				o = "o"
+				openInos[inos[i]] = true
+				for _, f := range fds {
+					if !f.write && f.ino == inos[i] {
+						rd++
+					}
+				}
+			}
+			cells = append(cells, fmt.Sprintf("g%d:c%d:%s:r%d", i, c, o, rd))
+		}
+		a := "-"
+		if e := s.arena.ArenaEntryForVerif(s.srv.layers[k].digest); e != nil {
+			a = "?"
+			for i, x := range gens {
+				if x == e {
+					a = fmt.Sprint(i)
+				}
 			}
 		}
+		cells = append(cells, "a="+a, fmt.Sprintf("h=%d", s.srv.hits[k].Load()))
+		parts = append(parts, strings.Join(cells, " "))
 	}
-	cells = append(cells, "a="+a, fmt.Sprintf("h=%d", s.srv.hits[k].Load()))
-	return strings.Join(cells, " ")
+	var n [3]int
+	for _, f := range fds {
+		switch {
+		case !f.write:
+			n[2]++
+		case openInos[f.ino]:
+			n[0]++
+		default:
+			n[1]++
+		}
+	}
+	parts = append(parts, fmt.Sprintf("fd w=%d t=%d r=%d", n[0], n[1], n[2]))
+	var px []string
+	for _, p := range s.proxies {
+		if c := p.call; c != nil {
+			d := "r"
+			if c.dead {
+				d = "d"
+			}
+			px = append(px, fmt.Sprintf("%s%d/%d+%d", d, len(c.tasks), len(c.keys), len(p.cleanup)))
+		} else {
+			px = append(px, fmt.Sprintf("i%d", len(p.cleanup)))
+		}
+	}
+	if len(px) == 0 {
+		px = []string{"-"}
+	}
+	parts = append(parts, "px "+strings.Join(px, " "))
+	return strings.Join(parts, " | "), n
+}
+
+// readersOf counts the read-only descriptors on the file of the rc a task was handed.
+func (s *sched) readersOf(t *task) int {
+	s.mu.Lock()
+	inos := s.ginos[t.key]
+	s.mu.Unlock()
+	if t.gen < 0 || t.gen >= len(inos) {
+		return -1
+	}
+	n := 0
+	for _, f := range scanFDs(s.root) {
+		if !f.write && f.ino == inos[t.gen] {
+			n++
+		}
+	}
+	return n
 }
 
 func (s *sched) genIndex(k int, x any) int {
@@ -245,15 +405,23 @@ func (s *sched) genIndex(k int, x any) int {
 	return -1
 }
 
+func (s *sched) genOf(t *task) any {
+	s.mu.Lock()
+	defer s.mu.Unlock()
+	gs := s.gens[t.key]
+	if t.gen < 0 || t.gen >= len(gs) {
+		return nil
+	}
+	return gs[t.gen]
+}
+
 // lastHolder reports whether the holding task a owns the only reference on its rc.
 func (s *sched) lastHolder(a *task) bool {
-	s.mu.Lock()
-	gs := s.gens[a.key]
-	s.mu.Unlock()
-	if a.gen < 0 || a.gen >= len(gs) {
+	g := s.genOf(a)
+	if g == nil {
 		return false
 	}
-	c, _ := libindex.RcStateForVerif(gs[a.gen])
+	c, _ := libindex.RcStateForVerif(g)
 	return c == 1
 }
 
@@ -293,9 +461,7 @@ func (s *sched) closeRace(a, b *task) {
 	pairLine := func(err error) {
 		out := closeErr(err)
 		b.st = "reffed"
-		s.cur = ""
-		s.ops = append(s.ops, fmt.Sprintf("closerace %d %d", a.id, b.id))
-		s.r.Op(fmt.Sprintf("closeref %d %d", a.id, b.id), out+" ref | "+s.keyState(a.key), true)
+		s.emitAs(fmt.Sprintf("closeref %d %d", a.id, b.id), fmt.Sprintf("closerace %d %d", a.id, b.id), out+" ref")
 	}
 	var rp *park
 	select {
@@ -304,9 +470,7 @@ func (s *sched) closeRace(a, b *task) {
 		// the count did not reach zero: an ordinary close
 		s.raceGid.Store(0)
 		out := closeErr(err)
-		s.cur = ""
-		s.ops = append(s.ops, fmt.Sprintf("close %d", a.id))
-		s.r.Op(fmt.Sprintf("close %d", a.id), out+" | "+s.keyState(a.key), true)
+		s.emit(fmt.Sprintf("close %d", a.id), out)
 		return
 	case <-time.After(30 * time.Second):
 		s.raceGid.Store(0)
@@ -347,7 +511,7 @@ func (s *sched) closeRace(a, b *task) {
 		}
 		close(rp.rel)
 		err := <-done
-		if s.pump("reffed", func() bool { return b.at != nil || b.finished }) && b.at != nil && b.at.site == "c10.reffed" {
+		if s.pump("reffed", func() bool { return b.at != nil || s.fin(b) }) && b.at != nil && b.at.site == "c10.reffed" {
 			pairLine(err)
 		} else if !s.broken {
 			s.fail("", fmt.Sprintf("task%d-did-not-take-its-reference-after-the-release", b.id))
@@ -383,12 +547,183 @@ func (s *sched) closeRace(a, b *task) {
 	}
 }
 
-func (s *sched) emit(line string, k int, outcome string) {
+// emit ends an operation: what the errgroups do as a consequence is waited for, then the
+// protocol line is written with the observable state of the whole arena.
+func (s *sched) emit(line string, outcome string) { s.emitAs(line, line, outcome) }
+
+func (s *sched) emitAs(line, witness, outcome string) {
+	s.settle()
 	s.cur = ""
-	s.ops = append(s.ops, line)
-	s.r.Op(line, outcome+" | "+s.keyState(k), true)
+	s.ops = append(s.ops, witness)
+	w, n := s.world()
+	s.r.Op(line, outcome+" | "+w, true)
 	if !s.quiet {
 		s.r.Count("op:" + strings.Fields(line)[0] + "=" + strings.Fields(outcome)[0])
+	}
+	if !s.broken {
+		s.fdCheck(n)
+	}
+}
+
+// fdCheck is the descriptor half of the statement at every step: the arena directory is
+// referenced by one write descriptor per rc whose file is open, one per flight between
+// openTemp and its end, and one read-only descriptor per task past Val - nothing else.
+func (s *sched) fdCheck(n [3]int) {
+	tmp := 0
+	for _, f := range s.flights {
+		if f.reqOpen || (f.at != nil && f.at.site == "c10.flight.fetched") {
+			tmp++
+		}
+	}
+	rd := 0
+	for _, t := range s.tasks {
+		if t.st == "valok" || t.st == "holding" {
+			rd++
+		}
+	}
+	open := 0
+	s.mu.Lock()
+	for _, gs := range s.gens {
+		for _, x := range gs {
+			if _, o := libindex.RcStateForVerif(x); o {
+				open++
+			}
+		}
+	}
+	s.mu.Unlock()
+	if !s.quiet {
+		s.r.Count("oracle:descriptor-accounting")
+	}
+	switch {
+	case n[1] != tmp:
+		s.fail("", fmt.Sprintf("temp-file-descriptors-not-stored-in-the-arena observed=%d flights-with-an-open-temp-file=%d", n[1], tmp))
+	case n[2] != rd:
+		s.fail("", fmt.Sprintf("read-only-descriptors-into-the-arena observed=%d tasks-past-Val=%d", n[2], rd))
+	case n[0] != open:
+		s.fail("", fmt.Sprintf("write-descriptors-of-stored-files observed=%d open-rcs=%d", n[0], open))
+	}
+}
+
+// ---- the errgroup mirror
+
+func (c *pcall) running() int {
+	n := 0
+	for _, t := range c.tasks {
+		if t.st != "holding" && t.st != "failed" && t.st != "closed" {
+			n++
+		}
+	}
+	return n
+}
+
+// settle waits for what the errgroup of every running RealizeDescriptions call does given
+// the state of its closures (the model's `settle`): siblings of a failed closure leave the
+// select through ctx.Done, g.Go starts the next descriptions, g.Wait returns.
+func (s *sched) settle() {
+	for _, px := range s.proxies {
+		c := px.call
+		if c == nil || s.broken {
+			continue
+		}
+		for _, t := range c.tasks {
+			if t.st == "failed" {
+				c.dead = true
+			}
+		}
+		if c.dead {
+			for _, t := range c.tasks {
+				if t.st != "waiting" || s.broken {
+					continue
+				}
+				// the group's context is cancelled: the closure leaves the select by itself
+				if s.pump("sibling-leaves-through-ctx.Done", func() bool { return t.at != nil || s.fin(t) }) && t.at != nil && t.at.site == "c10.ctxdone" {
+					s.releaseTask(t)
+					s.pump("sibling-returns", func() bool { return s.fin(t) })
+					if !s.quiet {
+						s.r.Count("branch:sibling-cancelled-by-its-errgroup")
+					}
+				} else if !s.broken {
+					s.fail("", fmt.Sprintf("task%d-of-a-cancelled-group-did-not-leave-the-select", t.id))
+					s.broken = true
+				}
+				t.st = "failed"
+				if f := s.flights[t.key]; f != nil && f.leader == t.id && f.reqOpen && !s.broken {
+					s.pump("cancelled-transfer-fails", func() bool { return f.at != nil })
+					f.reqOpen = false
+					s.srv.openGate(t.key)
+					if !s.quiet {
+						s.r.Count("branch:leader-cancelled-mid-transfer")
+					}
+				}
+			}
+		}
+		for len(c.tasks) < len(c.keys) && c.running() < c.limit && !s.broken {
+			idx := len(c.tasks)
+			t := &task{id: len(s.tasks), key: c.keys[idx], badURI: c.bad[idx], gen: -1, call: c, idx: idx, st: "unborn"}
+			s.tasks = append(s.tasks, t)
+			c.tasks = append(c.tasks, t)
+			if p := c.early[idx]; p != nil {
+				delete(c.early, idx)
+				t.at, t.gid = p, p.gid
+			}
+			if s.pump("g.Go-starts-the-next-description", func() bool { return t.at != nil }) && t.at.site == "c10.enter" {
+				t.st = "enter"
+				if c.dead && !s.quiet {
+					s.r.Count("branch:closure-started-under-a-cancelled-group")
+				}
+			} else if !s.broken {
+				s.fail("", fmt.Sprintf("closure-%d-of-proxy%d-did-not-reach-DoChan", idx, px.id))
+				s.broken = true
+			}
+		}
+		if len(c.tasks) != len(c.keys) || c.running() != 0 || s.broken {
+			continue
+		}
+		// every closure has returned: g.Wait returns
+		if !s.pump("RealizeDescriptions-returns", func() bool { return c.result != nil }) {
+			continue
+		}
+		failed := false
+		for _, t := range c.tasks {
+			if t.st == "failed" {
+				failed = true
+			}
+		}
+		res := c.result
+		px.call = nil
+		switch {
+		case res.out == "panic":
+			s.fail("", fmt.Sprintf("RealizeDescriptions-of-proxy%d-panicked", px.id))
+		case failed && res.err == nil:
+			s.fail("", fmt.Sprintf("RealizeDescriptions-of-proxy%d-succeeded-although-a-layer-failed", px.id))
+		case !failed && res.err != nil:
+			s.fail("", fmt.Sprintf("RealizeDescriptions-of-proxy%d-failed-although-every-layer-was-fetched err=%v", px.id, res.err))
+		}
+		if failed {
+			// the handles of the closures that succeeded were closed by RealizeDescriptions
+			for _, t := range c.tasks {
+				if t.st == "holding" {
+					t.st = "closed"
+				}
+			}
+			if !s.quiet {
+				s.r.Count("branch:realize-failed tasks=" + bucket(len(c.tasks)))
+			}
+			continue
+		}
+		if !s.quiet {
+			s.r.Count("branch:realize-succeeded tasks=" + bucket(len(c.tasks)))
+			if len(px.cleanup) > 0 {
+				s.r.Count("branch:realize-again-without-close")
+			}
+		}
+		px.cleanup = append(px.cleanup, c.tasks...)
+		if res.err == nil && len(res.ls) == len(c.tasks) {
+			for i, t := range c.tasks {
+				t.layer = &res.ls[i]
+				s.read(t, "after-realize")
+			}
+		}
 	}
 }
 
@@ -398,15 +733,10 @@ func (s *sched) spawn(k int, badURI bool) *task {
 	ctx, cancel := context.WithCancel(context.Background())
 	t := &task{id: len(s.tasks), key: k, badURI: badURI, ctx: ctx, cancel: cancel, layer: new(claircore.Layer), gen: -1}
 	t.desc = s.srv.desc(k, badURI)
+	s.byPtr[unsafe.StringData(t.desc.Digest)] = &descRef{t: t}
 	s.tasks = append(s.tasks, t)
 	do := s.arena.FetchIntoForVerif(ctx, t.layer, &t.cl, &t.desc)
-	started := make(chan struct{})
 	go func() {
-		t.gid = hx.GoID()
-		s.mu.Lock()
-		s.byGid[t.gid] = t
-		s.mu.Unlock()
-		close(started)
 		var err error
 		out := hx.Guard(func() string { err = do(); return "" })
 		if out == "panic" {
@@ -414,14 +744,13 @@ func (s *sched) spawn(k int, badURI bool) *task {
 		}
 		s.doneCh <- taskDone{t, err}
 	}()
-	<-started
 	if s.pump("spawn", func() bool { return t.at != nil || t.finished }) && t.at != nil && t.at.site == "c10.enter" {
 		t.st = "enter"
 	} else if !s.broken {
 		s.fail("", "task-did-not-reach-DoChan")
 		s.broken = true
 	}
-	s.emit(fmt.Sprintf("spawn %d", k), k, fmt.Sprintf("task %d", t.id))
+	s.emit(fmt.Sprintf("spawn %d", k), fmt.Sprintf("task %d", t.id))
 	if badURI {
 		s.ops[len(s.ops)-1] += " baduri" // the witness is a replayable script
 	}
@@ -469,10 +798,15 @@ func (s *sched) enter(t *task) {
 		}
 	}
 	if !s.broken {
-		s.waitBlocked(t)
+		if t.call != nil && t.call.dead {
+			// the group's context is dead already: the select is left at once (settle sees to it)
+			s.pump("ctx.Done-of-a-dead-group", func() bool { return t.at != nil || s.fin(t) })
+		} else {
+			s.waitBlocked(t)
+		}
 	}
 	t.st = "waiting"
-	s.emit(fmt.Sprintf("enter %d", t.id), k, out)
+	s.emit(fmt.Sprintf("enter %d", t.id), out)
 }
 
 func (s *sched) flightStep(k int) string {
@@ -498,15 +832,18 @@ func (s *sched) fload(k int) {
 	case "end":
 		out = "invalid"
 	}
-	s.emit(fmt.Sprintf("fload %d %s", k, b01(valid)), k, out)
+	s.emit(fmt.Sprintf("fload %d %s", k, b01(valid)), out)
 }
 
-func (s *sched) fnet(k int, srvOK bool, mode int32) {
-	s.cur = fmt.Sprintf("fnet %d %s", k, b01(srvOK))
+func (s *sched) fnet(k int, ok bool, mode int32) {
+	s.cur = fmt.Sprintf("fnet %d %s", k, b01(ok))
 	before := s.srv.hits[k].Load()
 	s.srv.mode[k].Store(mode)
 	if f := s.flights[k]; !s.quiet && f != nil && f.leader >= 0 && s.tasks[f.leader].st == "failed" {
 		s.r.Count("branch:request-under-a-cancelled-leader")
+	}
+	if !s.quiet && !ok {
+		s.r.Count(fmt.Sprintf("fault:server-mode=%s", srvModeName(mode)))
 	}
 	site := s.flightStep(k)
 	out := "neterr"
@@ -514,14 +851,40 @@ func (s *sched) fnet(k int, srvOK bool, mode int32) {
 		out = "fetched"
 	}
 	s.heldCheck(k, before)
-	s.emit(fmt.Sprintf("fnet %d %s", k, b01(srvOK)), k, out)
+	s.emit(fmt.Sprintf("fnet %d %s", k, b01(ok)), out)
+	if mode != srvOK && mode != srv500 {
+		s.ops[len(s.ops)-1] += fmt.Sprintf(" mode=%d", mode)
+	}
 }
 
-// heldCheck is the statement: no download of a layer somebody is holding.
+// ftmpfail: openTemp fails (the arena directory is not there at that moment).
+func (s *sched) ftmpfail(k int) {
+	s.cur = fmt.Sprintf("ftmpfail %d", k)
+	before := s.srv.hits[k].Load()
+	away := s.root + ".away"
+	if err := os.Rename(s.root, away); err != nil {
+		s.fail("", "cannot-move-the-arena-directory "+err.Error())
+		s.broken = true
+		return
+	}
+	site := s.flightStep(k)
+	os.Rename(away, s.root)
+	out := "tmperr"
+	if site != "end" {
+		out = "unexpected-" + site
+	}
+	if s.srv.hits[k].Load() != before {
+		out = "requested-without-a-temp-file"
+	}
+	s.emit(fmt.Sprintf("ftmpfail %d", k), out)
+}
+
+// heldCheck is the statement: no download of a layer somebody is holding (unless the whole
+// arena was Closed under the holder, which is documented to forget its files).
 func (s *sched) heldCheck(k int, before int64) {
 	if s.srv.hits[k].Load() != before {
 		for _, t := range s.tasks {
-			if t.key == k && t.st == "holding" {
+			if t.key == k && t.st == "holding" && !s.detached[s.genOf(t)] {
 				s.fail("", fmt.Sprintf("download-while-held key=%d holder=task%d", k, t.id))
 				break
 			}
@@ -553,7 +916,7 @@ func (s *sched) freq(k int, where int32) {
 	if !s.quiet {
 		s.r.Count(fmt.Sprintf("branch:stall-point=%d", where))
 	}
-	s.emit(fmt.Sprintf("freq %d", k), k, out)
+	s.emit(fmt.Sprintf("freq %d", k), out)
 	if where == stallMidBody {
 		s.ops[len(s.ops)-1] += " midbody"
 	}
@@ -570,7 +933,7 @@ func (s *sched) fbody(k int, srvOK bool, mode int32) {
 	if s.pump("transfer-ends", func() bool { return f.at != nil }) && f.at.site == "c10.flight.fetched" {
 		out = "fetched"
 	}
-	s.emit(fmt.Sprintf("fbody %d %s", k, b01(srvOK)), k, out)
+	s.emit(fmt.Sprintf("fbody %d %s", k, b01(srvOK)), out)
 }
 
 func (s *sched) fstore(k int) {
@@ -586,7 +949,7 @@ func (s *sched) fstore(k int) {
 		f.resultOK = true
 		f.resGen = n - 1
 	}
-	s.emit(fmt.Sprintf("fstore %d", k), k, out)
+	s.emit(fmt.Sprintf("fstore %d", k), out)
 }
 
 func (s *sched) fend(k int) {
@@ -615,7 +978,7 @@ func (s *sched) fend(k int) {
 	}
 	s.pump("waiters-wake", func() bool {
 		for _, t := range ws {
-			if t.at == nil && !t.finished {
+			if t.at == nil && !s.fin(t) {
 				return false
 			}
 		}
@@ -647,15 +1010,15 @@ func (s *sched) fend(k int) {
 		}
 		// an error result: the task returns it
 		s.releaseTask(t)
-		s.pump("task-returns-error", func() bool { return t.finished || t.at != nil })
-		if !t.finished || t.err == nil {
+		s.pump("task-returns-error", func() bool { return s.fin(t) || t.at != nil })
+		if !t.finished || (t.call == nil && t.err == nil) {
 			s.fail("", fmt.Sprintf("task%d-continued-after-a-failed-flight", t.id))
 			s.broken = true
 			break
 		}
 		t.st = "failed"
 	}
-	s.emit(fmt.Sprintf("fend %d", k), k, fmt.Sprintf("ended %d %s", len(ws), res))
+	s.emit(fmt.Sprintf("fend %d", k), fmt.Sprintf("ended %d %s", len(ws), res))
 }
 
 func (s *sched) cancelTask(t *task) {
@@ -678,17 +1041,19 @@ func (s *sched) cancelTask(t *task) {
 		if f := s.flights[t.key]; f != nil && f.leader == t.id && f.reqOpen && !s.broken {
 			// the transfer runs under this context: it fails now, the flight goes on to its end
 			s.pump("cancelled-transfer-fails", func() bool { return f.at != nil })
+			f.reqOpen = false
+			s.srv.openGate(t.key)
 			if !s.quiet {
 				s.r.Count("branch:leader-cancelled-mid-transfer")
 			}
 		}
 	}
-	s.emit(fmt.Sprintf("cancel %d", t.id), t.key, out)
+	s.emit(fmt.Sprintf("cancel %d", t.id), out)
 }
 
 func (s *sched) stepTask(t *task, what string) string {
 	s.releaseTask(t)
-	if !s.pump(what, func() bool { return t.at != nil || t.finished }) {
+	if !s.pump(what, func() bool { return t.at != nil || s.fin(t) }) {
 		return "stuck"
 	}
 	if t.finished {
@@ -716,16 +1081,27 @@ func (s *sched) ref(t *task) {
 		out = "unexpected-" + site
 	}
 	t.st = "reffed"
-	s.emit(fmt.Sprintf("ref %d", t.id), t.key, out)
+	s.emit(fmt.Sprintf("ref %d", t.id), out)
 }
 
 func (s *sched) val(t *task) {
 	s.cur = fmt.Sprintf("val %d", t.id)
+	before := s.readersOf(t)
 	site := s.stepTask(t, "val")
 	out := "unexpected-" + site
 	switch site {
 	case "val.ok":
 		out, t.st = "ok", "valok"
+		// the statement about Reopen: the new descriptor is on the file of the rc the task
+		// holds its reference on, not on whatever file has that descriptor number now
+		if after := s.readersOf(t); before >= 0 && after != before+1 {
+			s.fail("", fmt.Sprintf("reopened-descriptor-of-task%d-is-not-on-the-file-of-its-arena-entry key=%d readers-of-that-file before=%d after=%d", t.id, t.key, before, after))
+		}
+		if g := s.genOf(t); g != nil {
+			if _, open := libindex.RcStateForVerif(g); !open {
+				s.fail("", fmt.Sprintf("task%d-was-given-a-descriptor-although-the-file-of-its-entry-is-closed key=%d", t.id, t.key))
+			}
+		}
 	case "val.stale":
 		out, t.st = "stale", "stale"
 		if !s.quiet && s.arena.ArenaEntryForVerif(s.srv.layers[t.key].digest) != nil {
@@ -734,7 +1110,7 @@ func (s *sched) val(t *task) {
 	default:
 		t.st = "failed"
 	}
-	s.emit(fmt.Sprintf("val %d", t.id), t.key, out)
+	s.emit(fmt.Sprintf("val %d", t.id), out)
 }
 
 func (s *sched) retry(t *task) {
@@ -746,16 +1122,39 @@ func (s *sched) retry(t *task) {
 	} else {
 		t.st = "enter"
 	}
-	s.emit(fmt.Sprintf("retry %d", t.id), t.key, out)
+	s.emit(fmt.Sprintf("retry %d", t.id), out)
 }
 
 func (s *sched) initTask(t *task) {
 	s.cur = fmt.Sprintf("init %d", t.id)
 	valid := s.srv.layers[t.key].validTar
+	cBefore := -1
+	if g := s.genOf(t); g != nil {
+		cBefore, _ = libindex.RcStateForVerif(g)
+	}
+	lastOfFailed := false
+	if c := t.call; c != nil && len(c.tasks) == len(c.keys) && c.running() == 1 {
+		for _, o := range c.tasks {
+			if o.st == "failed" {
+				lastOfFailed = true
+			}
+		}
+	}
 	site := s.stepTask(t, "init")
 	out := "unexpected-" + site
 	if site == "finished" {
-		if t.err == nil && t.cl != nil {
+		held := t.err == nil && t.cl != nil
+		if t.call != nil {
+			// a closure of an errgroup: whether it kept its reference shows in the count -
+			// unless it was the last closure of a call that has failed, whose handles
+			// RealizeDescriptions closes as soon as this closure returns
+			held = valid
+			if !lastOfFailed {
+				c, _ := libindex.RcStateForVerif(s.genOf(t))
+				held = c == cBefore
+			}
+		}
+		if held {
 			out, t.st = "held", "holding"
 			if !valid {
 				s.fail("", fmt.Sprintf("task%d-holds-a-layer-that-is-not-a-tar", t.id))
@@ -767,8 +1166,8 @@ func (s *sched) initTask(t *task) {
 			}
 		}
 	}
-	s.emit(fmt.Sprintf("init %d %s", t.id, b01(valid)), t.key, out)
-	if t.st == "holding" {
+	s.emit(fmt.Sprintf("init %d %s", t.id, b01(valid)), out)
+	if t.st == "holding" && t.call == nil {
 		s.read(t, "after-init")
 	}
 }
@@ -784,7 +1183,7 @@ func (s *sched) closeTask(t *task) {
 		s.fail("", fmt.Sprintf("close-of-task%d-failed %s err=%v", t.id, out, err))
 	}
 	t.st = "closed"
-	s.emit(fmt.Sprintf("close %d", t.id), t.key, out)
+	s.emit(fmt.Sprintf("close %d", t.id), out)
 	// closing one user's handle must not disturb another's
 	for _, o := range s.tasks {
 		if o.key == t.key && o.st == "holding" {
@@ -794,6 +1193,9 @@ func (s *sched) closeTask(t *task) {
 }
 
 func (s *sched) read(t *task, when string) {
+	if t.layer == nil || t.st != "holding" {
+		return // a closure of a call that has not returned yet: the caller has no Layer so far
+	}
 	s.r.Case(fmt.Sprintf("read task%d key=%d %s", t.id, t.key, when), true)
 	if !s.quiet {
 		s.r.Count("oracle:read-back")
@@ -805,10 +1207,136 @@ func (s *sched) read(t *task, when string) {
 
 func (s *sched) gc(k int) {
 	runFinalizers()
-	s.emit(fmt.Sprintf("gc %d", k), k, "gc")
+	s.emit(fmt.Sprintf("gc %d", k), "gc")
 }
 
-func (s *sched) query(k int) { s.emit(fmt.Sprintf("query %d", k), k, "state") }
+func (s *sched) query(k int) { s.emit(fmt.Sprintf("query %d", k), "state") }
+
+// ---- proxies and the arena's own Close
+
+func (s *sched) pnew() *proxy {
+	px := &proxy{id: len(s.proxies), fp: s.arena.Realizer(context.Background()).(*libindex.FetchProxy)}
+	s.proxies = append(s.proxies, px)
+	s.emit("pnew", fmt.Sprintf("proxy %d", px.id))
+	return px
+}
+
+// realize starts p.RealizeDescriptions on its own goroutine; the closures its errgroup
+// starts stop at DoChan like any other task.
+func (s *sched) realize(px *proxy, limit int, keys []int, bad []bool) {
+	line := fmt.Sprintf("realize %d %d", px.id, limit)
+	for _, k := range keys {
+		line += fmt.Sprintf(" %d", k)
+	}
+	s.cur = line
+	ctx, cancel := context.WithCancel(context.Background())
+	c := &pcall{px: px, keys: keys, bad: bad, limit: limit, cancel: cancel, early: map[int]*park{}}
+	c.descs = make([]claircore.LayerDescription, len(keys))
+	for i, k := range keys {
+		c.descs[i] = s.srv.desc(k, bad[i])
+		s.byPtr[unsafe.StringData(c.descs[i].Digest)] = &descRef{call: c, idx: i}
+	}
+	if px.used && len(px.cleanup) == 0 && !s.quiet {
+		s.r.Count("branch:realize-after-close")
+	}
+	px.call, px.used, px.closedIdle = c, true, false
+	// the errgroup's limit is GOMAXPROCS at the time of the call
+	old := runtime.GOMAXPROCS(limit)
+	go func() {
+		res := &realizeRes{call: c}
+		res.out = hx.Guard(func() string { res.ls, res.err = px.fp.RealizeDescriptions(ctx, c.descs); return "" })
+		if res.err == nil && res.ls != nil {
+			keptMu.Lock()
+			keptLayers = append(keptLayers, res.ls)
+			keptMu.Unlock()
+		}
+		s.realized <- res
+	}()
+	if len(keys) == 0 {
+		s.pump("RealizeDescriptions-of-nothing-returns", func() bool { return c.result != nil })
+	}
+	s.settle()
+	runtime.GOMAXPROCS(old)
+	if !s.quiet {
+		s.r.Count(fmt.Sprintf("scenario:realize layers=%s limit=%d", bucket(len(keys)), limit))
+	}
+	s.emit(line, "started")
+	var bs []string
+	for i, b := range bad {
+		if b {
+			bs = append(bs, fmt.Sprint(i))
+		}
+	}
+	if len(bs) > 0 {
+		s.ops[len(s.ops)-1] += " bad:" + strings.Join(bs, ",")
+	}
+}
+
+func (s *sched) pcancel(px *proxy) {
+	s.cur = fmt.Sprintf("pcancel %d", px.id)
+	if c := px.call; c != nil {
+		c.cancel()
+		c.dead = true
+	}
+	s.emit(fmt.Sprintf("pcancel %d", px.id), "pcancelled")
+}
+
+func (s *sched) pclose(px *proxy) {
+	s.cur = fmt.Sprintf("pclose %d", px.id)
+	var err error
+	out := hx.Guard(func() string { err = px.fp.Close(); return "" })
+	switch {
+	case out == "panic":
+		s.fail("", fmt.Sprintf("Close-of-proxy%d-panicked", px.id))
+	case err != nil:
+		s.fail("", fmt.Sprintf("Close-of-proxy%d-failed err=%v", px.id, err))
+		out = "closeerr"
+	default:
+		out = fmt.Sprintf("pclosed %d", len(px.cleanup))
+	}
+	if !s.quiet && len(px.cleanup) == 0 {
+		s.r.Count("branch:proxy-close-with-nothing-to-close")
+	}
+	closed := px.cleanup
+	px.cleanup = nil
+	for _, t := range closed {
+		t.st = "closed"
+	}
+	s.emit(fmt.Sprintf("pclose %d", px.id), out)
+	for _, t := range closed {
+		for _, o := range s.tasks {
+			if o.key == t.key && o.st == "holding" {
+				s.read(o, fmt.Sprintf("after-close-of-proxy%d", px.id))
+			}
+		}
+	}
+}
+
+// aclose is RemoteFetchArena.Close: every key is forgotten, whoever holds a file keeps it.
+func (s *sched) aclose() {
+	s.cur = "aclose"
+	var err error
+	if hx.Guard(func() string { err = s.arena.Close(context.Background()); return "" }) == "panic" || err != nil {
+		s.fail("", fmt.Sprintf("arena-Close-failed err=%v", err))
+	}
+	s.aclosed = true
+	s.mu.Lock()
+	for _, gs := range s.gens {
+		for _, x := range gs {
+			if _, open := libindex.RcStateForVerif(x); open {
+				s.detached[x] = true
+			}
+		}
+	}
+	s.mu.Unlock()
+	s.emit("aclose", "aclosed")
+	// the arena's Close must not disturb a reader
+	for _, o := range s.tasks {
+		if o.st == "holding" {
+			s.read(o, "after-arena-Close")
+		}
+	}
+}
 
 func b01(b bool) string {
 	if b {
@@ -831,8 +1359,15 @@ func (s *sched) allTerminal() bool {
 			return false
 		}
 	}
+	for _, px := range s.proxies {
+		if px.call != nil || len(px.cleanup) != 0 {
+			return false
+		}
+	}
 	return len(s.flights) == 0
 }
+
+var failModes = []int32{srv500, srvWrongBytes, srvTruncated, srvBadType, srvMislabelled, srvEmpty, srvBzip2}
 
 // enabled lists what can run now. drain: no new work, no cancellations.
 func (s *sched) enabled(rnd *hx.Rand, drain bool) []choice {
@@ -862,12 +1397,15 @@ func (s *sched) enabled(rnd *hx.Rand, drain bool) []choice {
 			cs = append(cs, choice{8, func() { s.fload(k) }, "fload"})
 		case "c10.flight.miss":
 			cs = append(cs, choice{8, func() {
-				if rnd.Chance(1, 3) {
+				switch {
+				case !drain && rnd.Chance(1, 25):
+					s.ftmpfail(k)
+				case rnd.Chance(1, 3):
 					s.freq(k, []int32{stallBeforeHeaders, stallMidBody}[rnd.Intn(2)])
-				} else if drain || rnd.Chance(5, 6) {
+				case drain || rnd.Chance(5, 6):
 					s.fnet(k, true, srvOK)
-				} else {
-					s.fnet(k, false, []int32{srv500, srvWrongBytes, srvTruncated}[rnd.Intn(3)])
+				default:
+					s.fnet(k, false, failModes[rnd.Intn(len(failModes))])
 				}
 			}, "fnet"})
 		case "c10.flight.fetched":
@@ -882,7 +1420,7 @@ func (s *sched) enabled(rnd *hx.Rand, drain bool) []choice {
 		case "enter":
 			cs = append(cs, choice{10, func() { s.enter(t) }, "enter"})
 		case "waiting":
-			if !drain {
+			if !drain && t.call == nil {
 				w := 1
 				if f := s.flights[t.key]; f != nil && f.leader == t.id && f.reqOpen {
 					w = 5 // cancelled mid-fetch
@@ -898,6 +1436,13 @@ func (s *sched) enabled(rnd *hx.Rand, drain bool) []choice {
 		case "valok":
 			cs = append(cs, choice{6, func() { s.initTask(t) }, "init"})
 		case "holding":
+			if t.call != nil {
+				// the handle belongs to its proxy
+				if !drain && t.layer != nil {
+					cs = append(cs, choice{1, func() { s.read(t, "random") }, "read"})
+				}
+				continue
+			}
 			if s.lastHolder(t) {
 				for _, b := range s.tasks {
 					b := b
@@ -917,11 +1462,31 @@ func (s *sched) enabled(rnd *hx.Rand, drain bool) []choice {
 			}
 		}
 	}
+	for _, px := range s.proxies {
+		px := px
+		switch {
+		case px.call != nil:
+			if !drain {
+				w := 1
+				if px.call.running() > 0 {
+					w = 2
+				}
+				cs = append(cs, choice{w, func() { s.pcancel(px) }, "cancel"})
+			}
+		case len(px.cleanup) > 0:
+			w := 3
+			if drain {
+				w = 10
+			}
+			cs = append(cs, choice{w, func() { s.pclose(px) }, "pclose"})
+		case !drain && px.used && !px.closedIdle:
+			// Close with nothing to close (a second Close, or Close after a failed Realize)
+			cs = append(cs, choice{1, func() { s.pclose(px); px.closedIdle = true }, "pclose"})
+		}
+	}
 	return cs
 }
 
-// byKeyOrder makes map iteration order irrelevant: choices are sorted by tag
-// and position so that the same seed gives the same schedule.
 func pick(rnd *hx.Rand, cs []choice) choice {
 	total := 0
 	for _, c := range cs {
@@ -950,15 +1515,24 @@ func (s *sched) finish(cancelled bool) {
 	if !s.quiet {
 		s.r.Count("oracle:quiescent-check")
 		s.r.Count("scenario:tasks=" + bucket(len(s.tasks)))
+		if len(s.proxies) > 0 {
+			s.r.Count("scenario:proxies=" + bucket(len(s.proxies)))
+		}
+		if s.aclosed {
+			s.r.Count("scenario:with-arena-Close")
+		}
 	}
 	keys := s.arena.ArenaKeysForVerif()
 	orphans := 0
+	counted := map[any]bool{}
 	for _, key := range keys {
 		k := s.keyIdx[key]
-		c, open := libindex.RcStateForVerif(s.arena.ArenaEntryForVerif(key))
+		e := s.arena.ArenaEntryForVerif(key)
+		c, open := libindex.RcStateForVerif(e)
 		if c == 0 && open && s.orphaned[k] {
 			// exactly the listed finding: the flight stored a file after its last waiter left
 			orphans++
+			counted[e] = true
 			s.fail("orphan-after-cancel", fmt.Sprintf("arena-keeps-key=%d count=0 file-open after every user is done", k))
 			continue
 		}
@@ -968,9 +1542,17 @@ func (s *sched) finish(cancelled bool) {
 	for k, gs := range s.gens {
 		for i, x := range gs {
 			c, open := libindex.RcStateForVerif(x)
-			if (c != 0 || open) && !(s.orphaned[k] && c == 0 && x == s.arena.ArenaEntryForVerif(s.srv.layers[k].digest)) {
-				s.fail("", fmt.Sprintf("rc-not-released-after-all-closed key=%d gen=%d count=%d open=%v", k, i, c, open))
+			if c == 0 && !open || counted[x] {
+				continue
 			}
+			if c == 0 && open && s.orphaned[k] && s.detached[x] {
+				// the same finding, seen after RemoteFetchArena.Close: the orphaned file is no
+				// longer in the map, so no later request can adopt and release it either
+				orphans++
+				s.r.Fail("orphan-after-cancel", fmt.Sprintf("orphaned-file-of-key=%d count=0 still-open after the arena was Closed and every user is done %s", k, s.witness()))
+				continue
+			}
+			s.r.Fail("", fmt.Sprintf("rc-not-released-after-all-closed key=%d gen=%d count=%d open=%v %s", k, i, c, open, s.witness()))
 		}
 	}
 	s.mu.Unlock()
@@ -986,8 +1568,18 @@ func (s *sched) finish(cancelled bool) {
 
 func (s *sched) teardown() {
 	s.abandon.Store(true)
+	for _, px := range s.proxies {
+		if px.call != nil {
+			px.call.cancel()
+			for _, p := range px.call.early {
+				close(p.rel)
+			}
+		}
+	}
 	for _, t := range s.tasks {
-		t.cancel()
+		if t.cancel != nil {
+			t.cancel()
+		}
 		if t.at != nil {
 			s.releaseTask(t)
 		}
@@ -997,11 +1589,16 @@ func (s *sched) teardown() {
 			s.releaseFlight(f)
 		}
 	}
-	// release whatever arrives late, wait for the task goroutines
+	// release whatever arrives late, wait for the task goroutines and the running calls
 	deadline := time.After(3 * time.Second)
 	pending := 0
 	for _, t := range s.tasks {
-		if !t.finished {
+		if !t.finished && t.call == nil {
+			pending++
+		}
+	}
+	for _, px := range s.proxies {
+		if px.call != nil && px.call.result == nil {
 			pending++
 		}
 	}
@@ -1012,6 +1609,9 @@ func (s *sched) teardown() {
 		case d := <-s.doneCh:
 			d.t.finished, d.t.err = true, d.err
 			pending--
+		case res := <-s.realized:
+			res.call.result = res
+			pending--
 		case <-deadline:
 			pending = 0
 		}
@@ -1020,6 +1620,9 @@ func (s *sched) teardown() {
 		if t.cl != nil && t.st != "closed" && t.finished && t.err == nil {
 			hx.Guard(func() string { t.cl.Close(); return "" })
 		}
+	}
+	for _, px := range s.proxies {
+		hx.Guard(func() string { px.fp.Close(); return "" })
 	}
 	verifhook.Install(nil)
 	for {
@@ -1033,6 +1636,13 @@ func (s *sched) teardown() {
 	}
 	s.srv.close()
 	os.RemoveAll(s.root)
+	os.RemoveAll(s.root + ".away")
+}
+
+// begin writes the lines every scenario starts with.
+func (s *sched) begin() {
+	s.r.Op("reset", "ok", false)
+	s.r.Op(fmt.Sprintf("keys %d", len(s.srv.layers)), "ok", false)
 }
 
 // randomScenario runs one seeded schedule.
@@ -1042,27 +1652,59 @@ func randomScenario(r *hx.Run, rnd *hx.Rand, layers []*layer, maxTasks, maxSteps
 		r.Fail("", "cannot-create-arena "+err.Error())
 		return
 	}
-	r.Op("reset", "ok", false)
+	s.begin()
 	nkeys := 1 + rnd.Intn(3)
 	cancelled := false
 	allowCancel := rnd.Chance(1, 3)
+	proxies := rnd.Chance(3, 5)
+	allowAclose := rnd.Chance(1, 6)
+	pickKey := func() int {
+		if rnd.Chance(1, 12) {
+			return len(layers) - 1 // the blob that is not a tar archive
+		}
+		return rnd.Intn(nkeys)
+	}
 	for step := 0; !s.broken && !r.Stop(); step++ {
 		drain := step >= maxSteps || len(s.tasks) >= maxTasks
 		cs := s.enabled(rnd, step >= maxSteps)
 		if !drain || (len(cs) == 0 && len(s.tasks) < maxTasks && step < maxSteps) {
-			cs = append(cs, choice{12, func() {
-				k := rnd.Intn(nkeys)
-				if rnd.Chance(1, 12) {
-					k = len(layers) - 1 // the blob that is not a tar archive
-				}
-				s.spawn(k, rnd.Chance(1, 15))
-			}, "spawn"})
+			cs = append(cs, choice{12, func() { s.spawn(pickKey(), rnd.Chance(1, 15)) }, "spawn"})
+			if proxies {
+				cs = append(cs, choice{8, func() {
+					var px *proxy
+					for _, p := range s.proxies {
+						// the same proxy again: after its Close, or on top of handles it still has
+						if p.call == nil && (rnd.Chance(1, 4) || (len(p.cleanup) > 0 && rnd.Chance(1, 2))) {
+							px = p
+							break
+						}
+					}
+					if px == nil {
+						px = s.pnew()
+					}
+					n := 1 + rnd.Intn(4)
+					if rnd.Chance(1, 30) {
+						n = 0
+					}
+					keys := make([]int, n)
+					bad := make([]bool, n)
+					for i := range keys {
+						keys[i] = pickKey()
+						bad[i] = rnd.Chance(1, 25)
+					}
+					s.realize(px, 1+rnd.Intn(4), keys, bad)
+				}, "realize"})
+			}
 		}
 		if len(cs) == 0 {
 			break
 		}
 		if !drain && rnd.Chance(1, 40) {
 			s.gc(rnd.Intn(nkeys))
+			continue
+		}
+		if !drain && allowAclose && rnd.Chance(1, 30) {
+			s.aclose()
 			continue
 		}
 		if !allowCancel {
@@ -1082,6 +1724,9 @@ func randomScenario(r *hx.Run, rnd *hx.Rand, layers []*layer, maxTasks, maxSteps
 			cancelled = true
 		}
 		c.run()
+	}
+	if !s.broken && allowAclose && s.allTerminal() && rnd.Chance(1, 2) {
+		s.aclose()
 	}
 	s.finish(cancelled)
 }
